@@ -4,9 +4,9 @@
 P="$1"; ID="$2"; TIER="${3:-quick}"
 cd /repo || exit 2
 git diff --quiet || { echo "repo dirty"; exit 2; }
-git apply "$P" 2>/dev/null || git apply -3 "$P" || { echo "patch does not apply"; git checkout -- .; exit 2; }
+git apply "$P" 2>/dev/null || git apply -3 "$P" || { echo "patch does not apply"; git reset -q --hard HEAD; exit 2; }
 cd /verif
 cp evidence/$ID.json /tmp/evidence-$ID.bak 2>/dev/null
 ./check "$ID" "$TIER" 2>&1 | grep -E "VIOLATION|KNOWN|HARNESS|held|VIOLATED|^  \[" | head -12
 [ -f /tmp/evidence-$ID.bak ] && mv /tmp/evidence-$ID.bak evidence/$ID.json
-git -C /repo checkout -- .
+git -C /repo reset -q --hard HEAD
